@@ -17,14 +17,14 @@ def pick_pool(rnd):
     x = rnd.random()
     if x < 0.70:
         return RANKS
-    if x < 0.76:
+    if x < 0.78:
         # a rank whose name is the concatenation of two others: [A, B, AB] and [AB, A, B]
         # spell the same variable-name suffix (legal as long as nothing is flattened)
         a, b = rnd.sample(["M", "N", "K", "J", "H", "W"], 2)
         pool = [a, b, a + b] + rnd.sample([r for r in RANKS if r not in (a, b)], 1)
         rnd.shuffle(pool)
         return pool
-    if x < 0.82:
+    if x < 0.84:
         # a rank whose name is a prefix of another's
         a = rnd.choice(["M", "N", "K"])
         pool = [a, a + rnd.choice("HWX")] + rnd.sample([r for r in RANKS if r != a], 2)
